@@ -33,4 +33,4 @@ def run_oracle(ctx):
     rc, res, _ = ctx.harness(["blocks"] + [r["out"] for r in rs], timeout=6000)
     ctx.absorb(res)
     conf = confirm_with(ctx, "blocks")
-    ctx.candidates = [c for c in ctx.candidates if c["record"].get("kind") != "blocks" or conf(c)]
+    ctx.candidates = ctx.keep_confirmed(ctx.candidates, lambda c: (c["record"].get("kind") != "blocks") or conf(c))
